@@ -55,3 +55,25 @@ def encoder_cases(op='encode'):
         cfg = gen.parse_encode_line(l)
         out.append({'line': l.replace('encode', op, 1), 'cat': 'corpus', 'cfg': cfg})
     return out
+
+
+def rs_singular_cases():
+    """error patterns within the radius (on the all-zero codeword) whose syndrome Hankel matrix has two consecutive
+    singular leading minors after a non-singular one: the Levinson-Durbin loop takes its singular step with a jump m >= 2.
+    About 1 in 30000 random patterns; found once by tools' search (gfpy arithmetic) and kept."""
+    import json
+    import os
+    import common
+    sp = common.spec_by_index()
+    pats = json.load(open(os.path.join(os.path.dirname(__file__), 'rs_singular.json')))
+    out = []
+    for i, hits in pats.items():
+        i = int(i)
+        n = sp[i]['data'] + sp[i]['ec']
+        for pos, vals, jump in hits:
+            w = [0] * n
+            for p, y in zip(pos, vals):
+                w[p] = y
+            out.append({'line': 'rs_decode %d %s' % (i, ','.join(map(str, w))), 'cat': 'singular-jump', 'orig': [0] * n, 'sym': i,
+                        'nerr': len(pos), 'w': w})
+    return out
